@@ -82,3 +82,16 @@ Proof.
   - intros a b _ _ H. apply nbrs_sym; assumption.
   - exact Hl.
 Qed.
+
+(* the same for a user adjacency given as a table, symmetric *)
+Theorem custom_prune_laxer shape tb vals minv cs cs0 :
+  (forall a b, In b (nbrs_custom tb a) -> In a (nbrs_custom tb b)) -> laxer_after cs cs0 ->
+  prune_struct cs (compute shape (AdjCustom tb) vals minv cs0) = compute shape (AdjCustom tb) vals minv cs0.
+Proof.
+  intros Hsym Hl. unfold compute. cbn [adj_of].
+  apply prune_laxer_changes_nothing.
+  - apply order_of_NoDup.
+  - apply order_of_sorted.
+  - intros a b _ _ H. apply Hsym. exact H.
+  - exact Hl.
+Qed.
